@@ -118,6 +118,9 @@ type Exec struct {
 	scopes      []int
 	defs        []*Term
 	cbrts       map[int]*Term
+	logging     bool
+	logSeg      string
+	logCount    map[accessKey]int
 	varBounds   map[int]ival
 	ivMemo      map[int]ival
 	ufTables    map[*Value]*ufTable
@@ -132,13 +135,14 @@ type Exec struct {
 }
 
 type Access struct {
-	Loc   *Value
-	Write bool
-	Go    int
-	Instr ssa.Instruction
+	Seg    string // log segment label
+	Loc    *Value // cell accessed / sync object
+	Write  bool
+	Go     int // goroutine (0 = the harness's)
+	Other  int // for go/end events: the other goroutine
+	Instr  ssa.Instruction
 	Seq    int
-	Atomic bool
-	Sync   string
+	Sync   string // "" for plain accesses
 }
 
 type Violation struct {
@@ -1406,18 +1410,40 @@ type SyncEvent struct {
 }
 
 func (e *Exec) logAccess(p *Value, write bool, instr ssa.Instruction) {
-	if !e.Cfg.LogAccess {
+	if !e.logging {
 		return
 	}
-	e.accessLog = append(e.accessLog, Access{Loc: p, Write: write, Go: e.curGo, Instr: instr, Seq: len(e.accessLog)})
+	// locals of the current frames are thread-private: only heap cells, globals and
+	// cells reachable from them matter; keep at most a few events per instruction
+	key := accessKey{instr, write, e.curGo}
+	if e.logCount == nil {
+		e.logCount = map[accessKey]int{}
+	}
+	e.logCount[key]++
+	if e.logCount[key] > 6 {
+		return
+	}
+	e.accessLog = append(e.accessLog, Access{Seg: e.logSeg, Loc: p, Write: write, Go: e.curGo, Instr: instr, Seq: len(e.accessLog)})
+}
+
+type accessKey struct {
+	instr ssa.Instruction
+	write bool
+	g     int
 }
 
 func (e *Exec) logSync(kind string, a, b int) {
-	if !e.Cfg.LogAccess {
+	if !e.logging {
 		return
 	}
-	e.accessLog = append(e.accessLog, Access{Go: a, Seq: len(e.accessLog), Instr: nil, Loc: nil, Atomic: true, Write: kind == "go"})
+	e.accessLog = append(e.accessLog, Access{Seg: e.logSeg, Go: a, Other: b, Seq: len(e.accessLog), Sync: kind})
 }
+
+// AccessLog returns the recorded accesses (C11).
+func (e *Exec) AccessLog() []Access { return e.accessLog }
+
+// PosOf renders the position of an instruction.
+func (e *Exec) PosOf(instr ssa.Instruction) string { return e.posOf(instr) }
 
 // helpers for float rounding in real modes are in float.go
 var _ = math.Abs
